@@ -50,6 +50,10 @@ def d61Query : Query :=
 /-- the joined file has two rows with key 1 -/
 def d61Index : JoinIndex := [(.int 1, [[.text [120], .int 1], [.text [121], .int 1]])]
 def d61Line : Line := { text := [65], row := [.text [109], .int 1] }
+/-- … as the lines of the joined file (`d61Index` is what the loader makes of them) -/
+def d61Joined : List FileLine :=
+  [{ readable := true, line := { text := [66], row := [.text [120], .int 1] } },
+   { readable := true, line := { text := [66], row := [.text [121], .int 1] } }]
 
 /-- `SELECT COUNT(*) FROM a WHERE k = 1` -/
 def exWhereStmt : AggStmt :=
